@@ -282,17 +282,20 @@ def run(ctx):
         "impl_outputs_violating_statement": len(st["ofail"]),
         "cases_skipped_after_repeated_hangs": st["skipped"],
         "vm_compute_crosschecked_cases": nvm,
-        "clauses": {"feasible + minimal cost": "checker proved sound for all inputs (c13_checked_solver_sound, via lp_cert_sound); raw algorithm: "
-                                               "feasibility of every returned plan (c13_ssp_feasible_partial) and absence of assertion failures / "
-                                               "empty-queue reads on the whole domain (c13_ssp_safe_partial) proved for all inputs; termination and "
-                                               "optimality bounded (c13_optimal_bounded) + validated on every case (model plan and C++ plan certified)",
+        "clauses": {"feasible + minimal cost": "raw algorithm, all inputs of the domain, no size bound: every returned plan is feasible and of minimum "
+                                               "cost (c13_ssp_optimal); with a round budget >= big_fuel for updateTree a plan IS returned (termination of "
+                                               "every loop, c13_sspF_total); Ssp.v's own budget n^3+2n+1 is not sufficient in general "
+                                               "(c13_tree_fuel_insufficient), so for the extracted model: optimal plan or FAIL FUEL 483 "
+                                               "(c13_ssp_returns_or_tree_fuel_partial); checker proved sound (c13_checked_solver_sound); bounded theorem kept; "
+                                               "every case of the run validated (model plan and C++ plan certified)",
                     "assignment": "c13_to_assignment_argmax proved for all plans; exact tie on the C++ plan",
                     "increaseCapacity": "c13_increase_capacity_post proved; exact tie"},
     })
     return ctx.finish(LEVEL, cov, [
         "model Ssp.v is hand-written; tied to transportation.cpp relationally (equal cost, certified C++ plan) on the cases of this run",
-        "termination of updateTree / the chain walks and minimality of the raw algorithm's plan are not proved for all inputs "
-        "(bounded theorem + every case of the run); they depend on the optimality invariant of successive shortest paths",
+        "termination of updateTree is proved with the pseudo-polynomial round budget big_fuel (SspF.v); the extracted model keeps Ssp.v's budget "
+        "n^3+2n+1, which a 12-sink family exceeds (c13_tree_fuel_insufficient; the C++ needs 2^(full sinks) rounds there and still returns the optimum); "
+        "such inputs are not generated",
         "machine-integer overflow (CostType = int) is outside this model (ideal Z); costsFromIntegers (float scaling) is not modelled: the model "
         "receives the C++'s scaled costs",
         "problems with total demand > total capacity are outside C13 and are not generated"])
